@@ -496,8 +496,6 @@ theorem C13_receiver_gets_merged (h : Heap) (opt : MdOpt) (oldRootId newRootId :
 /-- the five options the source accepts are the five documented ones (table regenerated from node.py) -/
 theorem C13_table : EmdGen.mergeOptions = ["True", "False", "copy", "overwrite", "copyover"] := by decide
 
-theorem C13_translator_tie : EmdGen.unavailable.contains "mergeOptions" = false := by decide
-
 -- non-vacuity / the table on a concrete overlapping pair: receiver {m ↦ 1, own ↦ 2}, donor {m ↦ 3, new ↦ 4}
 def exMds : List (Nat × MdObj) := [(1, ⟨"m", "r"⟩), (2, ⟨"own", "r"⟩), (3, ⟨"m", "d"⟩), (4, ⟨"new", "d"⟩)]
 example : (mergeDict .yes [("m", 1), ("own", 2)] [("m", 3), ("new", 4)] exMds 5).1 = [("m", 1), ("own", 2), ("new", 4)] := by decide
